@@ -2174,7 +2174,23 @@ class Translator:
             size = '((c_ulong)%d)' % kind[2]
         lq = loopvar['type']['qualType']
         pre = []
-        if lq.rstrip().endswith('&'):
+        if loopvar.get('kind') == 'DecompositionDecl':
+            # `for (const auto& [a, b] : v)`: binding j names component j of the element (or of a copy of it)
+            binds = [x for x in loopvar.get('inner', []) if x and x.get('kind') == 'BindingDecl']
+            ek = self.tm.kinds.get(kind[1])
+            if not ek or ek[0] not in ('tup', 'rec') or len(binds) != len(ek[1]):
+                self.abort(n, 'range-for with a structured binding over elements of type ' + str(kind[1]))
+            for j, b in enumerate(binds):
+                comp = '_%d' % j if ek[0] == 'tup' else ek[1][j][1]
+                cty = ek[1][j] if ek[0] == 'tup' else ek[1][j][0]
+                if lq.rstrip().endswith('&'):
+                    self.alias[b['id']] = '%s.%s' % (elem, comp)
+                else:
+                    nm = self.fresh(b['name'])
+                    self.locals[b['id']] = nm
+                    self.var_types[nm] = cty
+                    pre.append('%s %s = %s.%s;' % (cty, nm, elem, comp))
+        elif lq.rstrip().endswith('&'):
             self.alias[loopvar['id']] = elem
         else:
             name = self.fresh(loopvar['name'])
